@@ -81,14 +81,15 @@ type Case struct {
 	Err     string   `json:"err,omitempty"`
 	ErrText string   `json:"err_text,omitempty"`
 	// added by enrich
-	Skip   string `json:"skip,omitempty"`
-	TreeML string `json:"tree_ml,omitempty"`
-	ReML   string `json:"re_ml,omitempty"`
-	PfML   string `json:"pf_ml,omitempty"`
-	JgML   string `json:"jg_ml,omitempty"`
+	Skip   string   `json:"skip,omitempty"`
+	TreeML string   `json:"tree_ml,omitempty"`
+	ReML   string   `json:"re_ml,omitempty"`
+	PfML   string   `json:"pf_ml,omitempty"`
+	JgML   string   `json:"jg_ml,omitempty"`
+	RgML   string   `json:"rg_ml,omitempty"`
 	Stages []string `json:"stages,omitempty"` // line | label | json | drop, in pipeline order
-	DbsML  string `json:"dbs_ml,omitempty"`
-	Dbs    []DB   `json:"dbs,omitempty"`
+	DbsML  string   `json:"dbs_ml,omitempty"`
+	Dbs    []DB     `json:"dbs,omitempty"`
 }
 
 // ---------------------------------------------------------------- generator (mode gen)
@@ -196,6 +197,88 @@ func genDrop(r *rand.Rand, class *[]string) string {
 	return " | drop " + strings.Join(ps, ",")
 }
 
+// ---- the regexp stage: expressions with named / plain / nested groups whose names are labels the filters read, and a
+// builder of lines the expression matches with given captured texts
+type reTmpl struct {
+	re    string
+	names []string          // the named groups
+	class map[string]string // what a captured text of the group looks like
+	build func(v map[string]string) string
+}
+
+var reTmpls = []reTmpl{
+	{`(?P<level>\w+) (?P<status>\d+)`, []string{"level", "status"}, map[string]string{"level": `^\w+$`, "status": `^\d+$`},
+		func(v map[string]string) string { return v["level"] + " " + v["status"] }},
+	{`(?P<a>(?P<_x1>\d+)\.\d+) (?P<job>\w+)`, []string{"a", "_x1", "job"}, map[string]string{"_x1": `^\d+$`, "job": `^\w+$`},
+		func(v map[string]string) string { return v["_x1"] + ".5 " + v["job"] }},
+	{`x(y)(?P<job>z.*)`, []string{"job"}, map[string]string{"job": `^z.*$`},
+		func(v map[string]string) string { return "xy" + v["job"] }},
+	{`lvl=(?P<level>[a-z]*) st=(?P<status>[0-9.]*)`, []string{"level", "status"}, map[string]string{"level": `^[a-z]*$`, "status": `^[0-9.]*$`},
+		func(v map[string]string) string { return "lvl=" + v["level"] + " st=" + v["status"] }},
+	{`((?P<a>a+)b)`, []string{"a"}, map[string]string{"a": `^a+$`},
+		func(v map[string]string) string { return "-" + v["a"] + "b-" }},
+	{`(?P<status>[0-9]+)`, []string{"status"}, map[string]string{"status": `^[0-9]+$`},
+		func(v map[string]string) string { return "took 7 ms, code " + v["status"] }},
+	{`(?P<job>it's)>(b)`, []string{"job"}, map[string]string{"job": `^it's$`},
+		func(v map[string]string) string { return "<it's>b" }},
+	{`(?P<level>[a-z]+):(?P<_x1>(?P<status>\d)\d*)`, []string{"level", "_x1", "status"}, map[string]string{"level": `^[a-z]+$`, "_x1": `^\d+$`},
+		func(v map[string]string) string { return v["level"] + ":" + v["_x1"] }},
+}
+
+func reTmplOf(src string) *reTmpl {
+	for i := range reTmpls {
+		if reTmpls[i].re == src {
+			return &reTmpls[i]
+		}
+	}
+	return nil
+}
+
+func genRegexp(r *rand.Rand, class *[]string) string {
+	*class = append(*class, "regexp")
+	return " | regexp " + quoted(r, reTmpls[r.Intn(len(reTmpls))].re)
+}
+
+// a regexp stage, a label filter on a label it writes, then a stage that rewrites or removes labels, filters around
+func genRegexpQuery(r *rand.Rand) (string, []string) {
+	var class []string
+	q := genMatchers(r)
+	for i := r.Intn(2); i > 0; i-- {
+		q += genFilter(r, &class)
+	}
+	t := reTmpls[r.Intn(len(reTmpls))]
+	class = append(class, "regexp")
+	q += " | regexp " + quoted(r, t.re)
+	l := t.names[r.Intn(len(t.names))]
+	switch r.Intn(5) {
+	case 0:
+		q += " | " + l + "!=" + quoted(r, pick(r, []string{"error", "200", "api", "zabc", "a", "7"}))
+	case 1:
+		q += " | " + l + "=~" + quoted(r, pick(r, []string{"e.*", "[0-9]+", "^a+$", "z"}))
+	case 2:
+		q += " | " + l + []string{" >= ", " < ", " == "}[r.Intn(3)] + pick(r, []string{"200", "7", "1.5", "10"})
+	default:
+		q += " | " + l + "=" + quoted(r, pick(r, []string{"error", "200", "api", "zabc", "aa", "7", "info"}))
+	}
+	class = append(class, "labelfilter")
+	for i := r.Intn(3); i > 0; i-- {
+		switch r.Intn(5) {
+		case 0:
+			q += genDrop(r, &class)
+		case 1:
+			q += " | drop " + l
+			class = append(class, "drop")
+		case 2:
+			q += genJson(r, &class)
+		case 3:
+			q += genRegexp(r, &class)
+		default:
+			q += genFilter(r, &class)
+		}
+	}
+	return q, class
+}
+
 // queries with json parameters and drop: mostly in the order the theorem covers (filters ; json+ ; drop* ;
 // filters*), sometimes in any order (where the planners are known to deviate)
 // a label filter, then line filter(s), then a stage that REWRITES the label the filter read (drop L / json L=other path):
@@ -279,16 +362,21 @@ func genParserQuery(r *rand.Rand) (string, []string) {
 	if r.Intn(4) == 0 {
 		return genRelabelAfterFilters(r)
 	}
+	if r.Intn(3) == 0 {
+		return genRegexpQuery(r)
+	}
 	var class []string
 	q := genMatchers(r)
 	if r.Intn(4) == 0 {
 		n := 1 + r.Intn(4)
 		for i := 0; i < n; i++ {
-			switch r.Intn(4) {
+			switch r.Intn(5) {
 			case 0:
 				q += genJson(r, &class)
 			case 1:
 				q += genDrop(r, &class)
+			case 2:
+				q += genRegexp(r, &class)
 			default:
 				q += genFilter(r, &class)
 			}
@@ -341,6 +429,7 @@ type qinfo struct {
 	nmatch    int
 	cons      []constraint // every comparison on a label (matchers and label filters)
 	jparams   []jparam     // json parameters: label and split path
+	rparams   []rparam     // regexp stages
 	stages    []string
 }
 
@@ -348,6 +437,15 @@ type jparam struct {
 	label string
 	path  []string
 }
+
+// a regexp stage: the expression as written, what the planner's grammar makes of it (hook VerifParseRe), and the text with
+// every `(?P<name>` replaced by `(` computed independently of the planner
+type rparam struct {
+	src, sent, naive string
+	names            []string
+}
+
+var namedOpen = regexp.MustCompile(`\(\?P<[a-zA-Z_][0-9a-zA-Z_]*>`)
 
 type constraint struct {
 	name, op, val string
@@ -490,6 +588,21 @@ func info(script *logql_parser.LogQLScript) *qinfo {
 				}
 				qi.jparams = append(qi.jparams, jparam{label, path})
 				qi.addLabel(label, "")
+			}
+		case p.Parser != nil && p.Parser.Fn == "regexp" && len(p.Parser.ParserParams) > 0:
+			src := unq(&p.Parser.ParserParams[0].Val)
+			var rp rparam
+			var perr error
+			if pn := hx.Catch(func() { rp.sent, rp.names, perr = clickhouse_planner.VerifParseRe(src) }); pn != "" || perr != nil {
+				return nil // the planner answers with an error (or panics): there is no SQL
+			}
+			rp.src, rp.naive = src, namedOpen.ReplaceAllString(src, "(")
+			qi.stages = append(qi.stages, "regexp")
+			qi.rparams = append(qi.rparams, rp)
+			for _, n := range rp.names {
+				if n != "" {
+					qi.addLabel(n, "")
+				}
 			}
 		case p.Drop != nil:
 			qi.stages = append(qi.stages, "drop")
@@ -646,6 +759,62 @@ func genDB(r *rand.Rand, qi *qinfo, c Ctx) DB {
 		lines = append(docs, docs...)
 		lines = append(lines, plain[r.Intn(len(plain))])
 	}
+	if len(qi.rparams) > 0 { // lines the expressions match, capturing texts the later filters accept / nearly accept
+		var rl []string
+		for _, rp := range qi.rparams {
+			t := reTmplOf(rp.src)
+			if t == nil {
+				continue
+			}
+			for k := 0; k < 5; k++ {
+				vals := map[string]string{}
+				for _, n := range t.names {
+					cre, ok := t.class[n]
+					if !ok {
+						continue
+					}
+					cls := regexp.MustCompile(cre)
+					var cands []string
+					for _, w := range valsFor(n) {
+						if cls.MatchString(w) {
+							cands = append(cands, w)
+						}
+					}
+					for _, w := range []string{"error", "info", "200", "404", "7", "zabc", "z", "aa", "a", "it's", "api", ""} {
+						if cls.MatchString(w) {
+							cands = append(cands, w)
+						}
+					}
+					if len(cands) == 0 {
+						cands = []string{"x"}
+					}
+					flip := r.Intn(3) == 0
+					best, bestN := cands[r.Intn(len(cands))], -1
+					for try := 0; try < 12; try++ {
+						w := cands[r.Intn(len(cands))]
+						k := 0
+						for _, cn := range qi.cons {
+							if cn.name == n && cn.holds(w) != flip {
+								k++
+							}
+						}
+						if k > bestN {
+							best, bestN = w, k
+						}
+					}
+					vals[n] = best
+				}
+				rl = append(rl, t.build(vals))
+			}
+		}
+		if len(rl) > 0 {
+			two := rl[r.Intn(len(rl))] + " " + rl[r.Intn(len(rl))] // two matches in one line: the LAST one is extracted
+			for _, l := range rl {
+				lines = append(lines, l, l)
+			}
+			lines = append(lines, two, two, "pre "+rl[0]+" post")
+		}
+	}
 	span := c.ToNs - c.FromNs
 	tss := []int64{c.FromNs - 1, c.FromNs, c.FromNs + 1, c.FromNs + span/2, c.ToNs - 1, c.ToNs, c.ToNs + 1, c.FromNs + span/2, c.FromNs + span/3}
 	nsam := 1 + r.Intn(4)
@@ -687,7 +856,7 @@ func setPath(doc map[string]interface{}, path []string, v interface{}) {
 
 // jsonGet is the oracle for if(JSONType(doc, path...) == 'String', JSONExtractString(doc, path...),
 // JSONExtractRaw(doc, path...)): every path element is a string, i.e. an object key; a string value is
-// returned unquoted, any other value as its text, nothing ('') when the document is not JSON or the path is
+// returned unquoted, any other value as its text, nothing (”) when the document is not JSON or the path is
 // missing. (The trusted reading of those ClickHouse functions for the failing-input search.)
 func jsonGet(line string, path []string) string {
 	var cur json.RawMessage = json.RawMessage(line)
@@ -742,6 +911,48 @@ func jgTable(qi *qinfo, dbs []DB) string {
 	return y.List(res)
 }
 
+// the capture groups of the LAST match of the expression in the line (” for a group that took no part / no match):
+// arrayMap(x -> x[length(x)], extractAllGroupsHorizontal(line, pattern)). Rows exist only for an expression that RE2
+// accepts and that has a capture group (otherwise ClickHouse raises an exception).
+func rgPatterns(qi *qinfo) []string {
+	seen := map[string]bool{}
+	var ps []string
+	for _, rp := range qi.rparams {
+		for _, p := range []string{rp.sent, rp.naive} {
+			if !seen[p] {
+				seen[p] = true
+				ps = append(ps, p)
+			}
+		}
+	}
+	return ps
+}
+
+func rgTable(qi *qinfo, dbs []DB) string {
+	var res []string
+	for _, p := range rgPatterns(qi) {
+		re, err := regexp.Compile(p)
+		if err != nil || re.NumSubexp() == 0 {
+			continue
+		}
+		seenL := map[string]bool{}
+		for _, db := range dbs {
+			for _, x := range db.Samples {
+				if seenL[x.Line] {
+					continue
+				}
+				seenL[x.Line] = true
+				var vs []string
+				for _, v := range lastGroups(re, x.Line) {
+					vs = append(vs, y.Str(v))
+				}
+				res = append(res, y.Pair(y.Pair(y.Str(p), y.Str(x.Line)), y.List(vs)))
+			}
+		}
+	}
+	return y.List(res)
+}
+
 // ---------------------------------------------------------------- OCaml terms
 
 var y = coqx.ML
@@ -775,6 +986,13 @@ func oracles(qi *qinfo, dbs []DB) (reML, pfML string, err error) {
 			subj[x.Line] = true
 			for _, jp := range qi.jparams { // extracted values become label values
 				subj[jsonGet(x.Line, jp.path)] = true
+			}
+			for _, p := range rgPatterns(qi) {
+				if re, err := regexp.Compile(p); err == nil {
+					for _, v := range lastGroups(re, x.Line) {
+						subj[v] = true
+					}
+				}
 			}
 		}
 	}
@@ -997,6 +1215,7 @@ func enrich(c *Case, seed int64, ndb int) {
 		return
 	}
 	c.JgML = jgTable(qi, c.Dbs)
+	c.RgML = rgTable(qi, c.Dbs)
 	c.Stages = qi.stages
 	var ds []string
 	for _, d := range c.Dbs {
@@ -1023,6 +1242,8 @@ type ReCase struct {
 	Got       map[string]string `json:"got"`
 	Ok        bool              `json:"ok"`
 	Why       string            `json:"why,omitempty"`
+	// what the planner's grammar makes of the expression (compared with the Coq transcription model/LogqlRegexp.v re_plan)
+	GoOk bool `json:"go_ok"`
 }
 
 var reAtoms = []string{`\w+`, `\d+`, `[a-z]+`, `[A-Z]+`, `=`, ` `, `x`, `\.`, `\S+`, `:`}
@@ -1078,11 +1299,35 @@ func regroupCase(r *rand.Rand, id int) ReCase {
 	if len(names) == 0 {
 		re += "(?P<k0>" + pick(r, reAtoms) + ")"
 	}
+	malformed := id%5 == 4
+	if malformed { // damage the expression: the grammar's error paths (compared with the Coq transcription only)
+		k := r.Intn(len(re))
+		switch r.Intn(3) {
+		case 0:
+			re = re[:k] + re[k+1:]
+		case 1:
+			re = re[:k] + pick(r, []string{"(", ")", "?", "P", "<", ">", "\\", "(?P<", "(?P<a>)", "(?:", "\n"}) + re[k:]
+		default:
+			re = re[:k]
+		}
+	}
 	c := ReCase{ID: id, Re: re, Class: "flat", Line: pick(r, reLines)}
 	if nested {
 		c.Class = "nested-in-named"
 	}
 	c.Query = `{a="b"} | regexp ` + strconv.Quote(re)
+	var stripped string
+	var implNames []string
+	var perr error
+	pn := hx.Catch(func() { stripped, implNames, perr = clickhouse_planner.VerifParseRe(re) })
+	c.GoOk = pn == "" && perr == nil
+	if c.GoOk {
+		c.Stripped, c.ImplNames = stripped, implNames
+	}
+	if malformed {
+		c.Class, c.Ok = "malformed", true
+		return c
+	}
 	orig, err := regexp.Compile(re)
 	if err != nil {
 		c.Ok, c.Why = true, "not an RE2 expression: "+err.Error()
@@ -1090,12 +1335,10 @@ func regroupCase(r *rand.Rand, id int) ReCase {
 		return c
 	}
 	c.RefNames = orig.SubexpNames()[1:]
-	stripped, implNames, err := clickhouse_planner.VerifParseRe(re)
-	if err != nil {
-		c.Why = "the planner's expression parser rejects a valid expression: " + err.Error()
+	if !c.GoOk {
+		c.Why = "the planner's expression parser rejects a valid expression: " + fmt.Sprint(perr, pn)
 		return c
 	}
-	c.Stripped, c.ImplNames = stripped, implNames
 	sre, err := regexp.Compile(stripped)
 	if err != nil {
 		c.Why = "the expression the planner sends is not valid: " + err.Error()
